@@ -198,11 +198,88 @@ CORE_VIEW = [
 ]
 
 
+# ---- length classes of two-argument shape-like index functions.  The capacity of the result of such a function is a formula over
+# the lengths / bounds of both arguments (max(len_a, len_b), len_a + len_b, ...) with one type-level branch per pair of length
+# classes.  For every ORDERED pair of classes (constant / fixed / bounded with a TIGHT bound = the length itself, like the shape of a
+# hs_* array / dynamic) the core has one signature in which the second argument is longer than the first and one in which it is
+# shorter (where the operation admits both).  The seed-drawn programs cannot reach this: their bounded kinds have capacity G.CAP = 6,
+# larger than every length they draw.
+LEN_KINDS = ["ct", "fx:int", "svt:int", "dy:int"]
+
+CORE_LEN = [
+    ("shape_tile", (2, 3), dict(shape=[2, 3], reps=[2, 1, 2])),
+    ("shape_tile", (3, 1), dict(shape=[2, 1, 3], reps=[2])),
+    ("broadcast_shape", (1, 3), dict(a=[3], b=[2, 1, 3])),
+    ("broadcast_shape", (3, 2), dict(a=[2, 3, 1], b=[1, 4])),
+    ("shape_broadcast_to", (1, 2), dict(a=[3], b=[2, 3])),          # a destination shorter than the source is a failing call
+    ("shape_reshape", (1, 2, False), dict(src=[6], dst=[2, 3])),
+    ("shape_reshape", (2, 1, False), dict(src=[2, 3], dst=[6])),
+    ("shape_matmul", (2, 3), dict(a=[2, 3], b=[2, 3, 4])),
+    ("shape_matmul", (3, 2), dict(a=[2, 2, 3], b=[3, 2])),
+    ("shape_outer", (1, 3), dict(a=[2], b=[3, 1, 2])),
+    ("shape_outer", (2, 1), dict(a=[2, 3], b=[4])),
+    ("shape_expand_dims", (1, 2), dict(shape=[3], axes=[0, 2])),
+    ("shape_expand_dims", (3, 1), dict(shape=[2, 3, 4], axes=[1])),
+    ("shape_pad", (2,), dict(shape=[2, 3], pad_width=[1, 0, 2, 1])),  # pad_width always has twice the length of the shape
+    ("free_axes", (2, 3), dict(a=[2, 3, 4], b=[3, 1])),               # the second shape is never longer
+]
+CORE_LEN_PROGRAMS = 3
+
+# views over an operand of BOUNDED dimension (hs_*: the bound is the dimension of the operand itself) with index arguments that
+# are LONGER than that bound: the dimension of the result is decided by the index argument
+CORE_VIEW_LEN = [
+    ("tile", (1, 2), dict(a=G.A([3], 1), reps=[2, 2]), dict(a=dict(S=[3], T="int"), reps=_ia(2, [3, 3])),
+     ["hs_fb|fx:int", "hs_hb|tp:int", "hs_db|ct", "hs_hb|raw:int", "hs_fb|lit", "hs_db|svt:int", "hs_db|dy:int", "hybrid_nd|fx:int", "ds_db|fx:int"],
+     [dict(a=G.A([3], 1), reps=[2, 2]), dict(a=G.A([2], 1), reps=[1, 3]), dict(a=G.A([3], 1), reps=[3, 1]), dict(a=G.A([1], 1), reps=[2, 2])]),
+    ("sum_tile", (1, 2), dict(a=G.A([3], 1), reps=[2, 2], axis=1, keepdims=0),
+     dict(a=dict(S=[3], T="int"), reps=_ia(2, [3, 3]), axis=dict(mx=2), keepdims=dict(mx=2)),
+     ["hs_fb|tp:int|rt:int|tt", "hs_hb|fx:int|rt:int|tt", "hs_db|ct|ct|tt", "ds_db|fx:int|rt:int|tt"],
+     [dict(a=G.A([3], 1), reps=[2, 2], axis=1, keepdims=0), dict(a=G.A([3], 1), reps=[3, 1], axis=0, keepdims=0), dict(a=G.A([2], 1), reps=[2, 3], axis=-1, keepdims=0)]),
+    ("slice_tile", (1, 2), dict(a=G.A([3], 1), reps=[2, 2], start=0, stop=2),
+     dict(a=dict(S=[3], T="int"), reps=_ia(2, [3, 3]), start=dict(mx=2), stop=dict(mx=3)),
+     ["hs_fb|tp:int|rt:int|rt:int", "hs_hb|fx:int|rt:int|rt:int", "ds_db|fx:int|rt:int|rt:int"],
+     [dict(a=G.A([3], 1), reps=[2, 2], start=0, stop=2), dict(a=G.A([3], 1), reps=[3, 1], start=1, stop=3), dict(a=G.A([2], 1), reps=[2, 3], start=0, stop=1)]),
+]
+
+
+def _core_len_entry(opn, dims, baked):
+    """(operation, dims, baked, signature, the 16 length-class pairs, deterministic value sets of the same signature)"""
+    o = G.OPS[opn]
+    sig = {}
+    for a in o.args:
+        v = baked[a.name]
+        sig[a.name] = _ia(len(v), [max(2, abs(x) + 1) for x in v])
+    cfgs = ["%s|%s" % (ka, kb) for ka in LEN_KINDS for kb in LEN_KINDS]
+    r = random.Random("c09core/%s/%s" % (opn, dims))
+    values = [baked]
+    for _ in range(60):
+        v = o.gen(r, dims)
+        if v in values or not G.same_sig(o, baked, v) or o.oracle(v) in (G.INVALID, G.NOTHING):
+            continue
+        values.append(v)
+        if len(values) >= 4:
+            break
+    return (opn, dims, baked, sig, cfgs, values)
+
+
+def core_tables():
+    """[(program name, [entries])]; entry = (operation, dims, baked value set, signature, configurations, explicit value sets)"""
+    out = [("c09_core_ix", CORE_INDEX), ("c09_core_v", CORE_VIEW), ("c09_core_vlen", CORE_VIEW_LEN)]
+    ln = [_core_len_entry(*e) for e in CORE_LEN]
+    for k in range(CORE_LEN_PROGRAMS):
+        out.append(("c09_core_len%d" % k, ln[k::CORE_LEN_PROGRAMS]))
+    return out
+
+
+def core_entries():
+    return [e for _, table in core_tables() for e in table]
+
+
 def core_programs(sup, gid0=9000):
     """[(Program, flavors)]: configurations outside the allow-list are left out"""
     out = []
     gid = gid0
-    for name, table in (("c09_core_ix", CORE_INDEX), ("c09_core_v", CORE_VIEW)):
+    for name, table in core_tables():
         groups = []
         for (opn, dims, baked, sig, cfgs, values) in table:
             o = G.OPS[opn]
@@ -310,20 +387,29 @@ def _dep_path(key):
     return os.path.join(dict(_dep_roots())[tag], rel)
 
 
-def _memo_load(p, flavors):
-    """[(gid, op, cfg)] to drop from the unreduced program p, or None"""
+def _memo_entries(p):
     import json
     try:
         with open(os.path.join(DROP_DIR, p.name + ".json")) as f:
             m = json.load(f)
-        if m.get("orig") != _prog_sha(p, flavors) or not m.get("deps") or not m.get("dropped"):
-            return None
-        for key, h in m["deps"].items():
-            if B.file_hash(_dep_path(key)) != h:
-                return None
-        return [tuple(x) for x in m["dropped"]]
-    except (OSError, ValueError, KeyError, TypeError):
-        return None
+        return [e for e in m.get("entries", []) if isinstance(e, dict)]
+    except (OSError, ValueError, AttributeError):
+        return []
+
+
+def _memo_load(p, flavors):
+    """[(gid, op, cfg)] to drop from the unreduced program p, or None.  The file keeps one entry per tree the program was
+    built against (the unchanged tree and scratch trees share program names)"""
+    sha = _prog_sha(p, flavors)
+    for m in reversed(_memo_entries(p)):
+        try:
+            if m.get("orig") != sha or not m.get("deps") or not m.get("dropped"):
+                continue
+            if all(B.file_hash(_dep_path(key)) == h for key, h in m["deps"].items()):
+                return [tuple(x) for x in m["dropped"]]
+        except (OSError, ValueError, KeyError, TypeError):
+            continue
+    return None
 
 
 def _memo_save(p, orig_sha, flavors, dropped):
@@ -342,11 +428,13 @@ def _memo_save(p, orig_sha, flavors, dropped):
                 deps[k] = B.file_hash(d)
     if not deps:
         return
+    entries = [e for e in _memo_entries(p) if not (e.get("orig") == orig_sha and e.get("deps") == deps)]
+    entries.append(dict(orig=orig_sha, flavors=list(flavors), dropped=[list(x) for x in dropped], deps=deps))
     os.makedirs(DROP_DIR, exist_ok=True)
     path = os.path.join(DROP_DIR, p.name + ".json")
     tmp = path + ".tmp%d" % os.getpid()
     with open(tmp, "w") as f:
-        json.dump(dict(orig=orig_sha, flavors=list(flavors), dropped=[list(x) for x in dropped], deps=deps), f)
+        json.dump(dict(entries=entries[-8:]), f)
     os.replace(tmp, path)
 
 
@@ -759,7 +847,29 @@ def parse_array_traits(t):
     return d
 
 
-def parse_view_record(toks):
+def parse_static_traits(t):
+    """M <0|1> (NUM | FS .. FD .. FZ .. BD .. BZ ..): what a type claims, without a run-time object"""
+    d = {}
+    t.expect("M")
+    d["maybe"] = t.i()
+    if t.peek() == "NUM":
+        t.s()
+        d["num"] = True
+        return d
+    t.expect("FS")
+    if t.peek() == "F":
+        t.s()
+        d["fs"] = None
+    else:
+        d["fs"] = t.vec()
+    for tag, k in (("FD", "fd"), ("FZ", "fz"), ("BD", "bd"), ("BZ", "bz")):
+        t.expect(tag)
+        d[k] = _num_or_f(t)
+    return d
+
+
+def parse_view_record(toks, static_only=False):
+    """static_only: the prefix of a record that ended in an exception - operands and the static traits of the view type (VS)"""
     t = Tok(toks)
     if t.peek() == "SKIP":
         return None
@@ -770,6 +880,11 @@ def parse_view_record(toks):
     while t.peek() == "OPD":
         t.s()
         d["opd"].append(parse_array_traits(t))
+    if t.peek() == "VS":
+        t.s()
+        d["vs"] = parse_static_traits(t)
+    if static_only:
+        return d
     t.expect("V")
     d["v"] = t.array()
     t.expect("VT")
@@ -1028,10 +1143,21 @@ def judge_c11(ctx, recs, info):
         ck = G.cfg_kinds(r.inst.cfg)
         cc = G.cfg_class(r.inst.cfg)
         det = dict(op=o.name, program=r.prog, flavor=r.flavor, instance=r.inst.name, config=r.inst.cfg, values=vals_brief(r), case=r.line)
-        if r.crash is not None or r.toks is None or (has_exc(r.toks) and o.family == "view"):
+        if r.crash is not None or r.toks is None:
             # crashes are C09/C02 material; here only static knowledge is judged
             continue
         exp = expected_of(r)
+        if has_exc(r.toks) and o.family == "view":
+            # reading the view threw (C09's finding).  What the view TYPE claims was printed before the view was touched: it is
+            # compared with the independent reference result of this accepted call
+            try:
+                p = parse_view_record(r.toks, static_only=True)
+            except (ValueError, IndexError):
+                p = None
+            if p and p.get("vs") and exp not in (G.INVALID, G.NOTHING):
+                ctx.ev()
+                ntraits += check_array_traits(ctx, o, "%s:%s:view" % (o.name, cc), r, "view (reading it threw)", p["vs"], exp, det)
+            continue
         try:
             if o.family == "view":
                 p = parse_view_record(r.toks)
@@ -1181,13 +1307,16 @@ def check_index_traits(ctx, o, ck, r, res, tr, exp, det):
 
 def check_array_traits(ctx, o, keybase, r, where, tr, exp, det):
     n = 0
-    if tr.get("num") or tr.get("nothing") or "rs" not in tr:
+    if tr.get("num") or tr.get("nothing"):
+        return 0
+    has_obj = "rs" in tr
+    if not has_obj and (exp is None or exp in (G.INVALID, G.NOTHING) or exp[0] != "A"):
         return 0
 
     def bad(trait, msg):
         ctx.violation("%s:%s" % (keybase, trait), "%s(%s) configuration %s [%s] %s: %s" % (o.name, vals_brief(r), r.inst.cfg, r.flavor, where, msg), det)
 
-    objs = [("object", tr["rs"], tr["rd"], tr["rz"])]
+    objs = [("object", tr["rs"], tr["rd"], tr["rz"])] if has_obj else []
     if exp is not None and exp not in (G.INVALID, G.NOTHING) and exp[0] == "A":
         objs.append(("reference", list(exp[1]), len(exp[1]), int(np.prod(exp[1]))))
     for nm_, rs, rd, rz in objs:
@@ -1211,6 +1340,6 @@ def check_array_traits(ctx, o, keybase, r, where, tr, exp, det):
             n += 1
             if tr["bz"] < rz:
                 bad("bounded_size", "bounded_size_v = %d < run-time %s size %d (shape %s)" % (tr["bz"], nm_, rz, rs))
-    if list(tr["rs"]) and (len(tr["rs"]) != tr["rd"] or int(np.prod(tr["rs"])) != tr["rz"]):
+    if has_obj and list(tr["rs"]) and (len(tr["rs"]) != tr["rd"] or int(np.prod(tr["rs"])) != tr["rz"]):
         bad("runtime_inconsistent", "shape() %s, dim() %d, size() %d disagree" % (tr["rs"], tr["rd"], tr["rz"]))
     return n
